@@ -5,6 +5,7 @@ package mcctx
 import (
 	"context"
 	"time"
+	"unsafe"
 
 	"verif/mc"
 )
@@ -26,6 +27,7 @@ func (c *mctx) Done() <-chan struct{}       { return c.done }
 func (c *mctx) Err() error {
 	if !mc.Killing() {
 		mc.Point(&mc.Op{Kind: "ctx.Err", Obj: c, RO: true, Alts: func() int { return 1 }, Do: func(int) {}})
+		mc.RaceAcquire(unsafe.Pointer(c)) // the real context guards err with a mutex
 	}
 	return c.err
 }
@@ -75,6 +77,7 @@ func (c *mctx) cancel(err error) {
 		return
 	}
 	c.err = err
+	mc.RaceRelease(unsafe.Pointer(c))
 	mc.MarkClosed(c.done)
 	for _, ch := range c.children {
 		ch.cancel(err)
@@ -133,4 +136,12 @@ func Peek(ctx context.Context) error {
 		return c.err
 	}
 	return nil
+}
+
+// Acquire announces the happens-before edge from the cancellation of ctx to an
+// observer that has just seen it ended (the real context types synchronise internally).
+func Acquire(ctx context.Context) {
+	if c, ok := ctx.Value(&key).(*mctx); ok && c.err != nil {
+		mc.RaceAcquire(unsafe.Pointer(c))
+	}
 }
